@@ -754,7 +754,11 @@ fn s5<M: Machine>(nonpositive_only: bool) {
     let mut violation = viols.into_iter().next();
     if violation.is_none() {
         let fp = M::fingerprint(&st);
-        if probe.last() != Some(&fp) {
+        // (a slot leaves the sequential replay when the library rejected a non-finite record of a
+        // two-stream delivery: what was absorbed before the rejection is then unspecified)
+        if probe.last().map(|p| p.as_str()) == Some("<no such slot>") {
+            stats.inc("s5_slot_left_the_replay");
+        } else if probe.last() != Some(&fp) {
             violation = Some(Violation::new(&tr.property, "thread-result-differs-from-sequential-replay-of-its-logical-trace", 0, format!("threads computed {fp}, sequential replay computed {:?}", probe.last())));
         }
     }
